@@ -243,3 +243,50 @@ Proof.
       exists y. split; [|exact Hin]. apply Hinj; [right; exact Hin | left; reflexivity | exact Hy].
     + apply IH; [exact Hnd'|]. intros a b Ha Hb. apply Hinj; right; assumption.
 Qed.
+
+(* ---------------------------------------------------------------- replaying a table into a prefix
+   of itself: an element of L = l ++ t is found in l by its key when its id is within l, and is
+   the head of t (and not found) when its id is the next one *)
+Section Replay.
+  Context {A K : Type} (idf : A -> Z) (key : A -> K) (eqb : K -> K -> bool).
+  Hypothesis eqb_spec : forall a b, eqb a b = true <-> a = b.
+
+  Lemma ids_nth : forall l x, ids_seq idf l -> In x l -> nth_error l (Z.to_nat (idf x - 1)) = Some x.
+  Proof.
+    intros l x H Hin. apply In_nth_error in Hin. destruct Hin as [i Hi].
+    pose proof (H i x Hi) as E. replace (Z.to_nat (idf x - 1)) with i by lia. exact Hi.
+  Qed.
+
+  Lemma replay_found : forall l t x,
+    ids_seq idf (l ++ t) -> NoDup (map key (l ++ t)) -> In x (l ++ t) ->
+    1 <= idf x <= Z.of_nat (length l) ->
+    find (fun y => eqb (key y) (key x)) l = Some x.
+  Proof.
+    intros l t x Hids Hnd Hin Hr.
+    assert (Hl : In x l).
+    { pose proof (ids_nth (l ++ t) x Hids Hin) as N.
+      rewrite nth_error_app1 in N by lia. eapply nth_error_In; eauto. }
+    destruct (find (fun y => eqb (key y) (key x)) l) as [g0|] eqn:E.
+    - apply find_some in E. destruct E as [Hg Hk]. apply eqb_spec in Hk.
+      f_equal. apply (nodup_key_inj key (l ++ t)); auto; apply in_or_app; left; assumption.
+    - exfalso. eapply (find_in_not_none _ l x Hl); [|exact E]. apply eqb_spec. reflexivity.
+  Qed.
+
+  Lemma replay_next : forall l t x,
+    ids_seq idf (l ++ t) -> NoDup (map key (l ++ t)) -> In x (l ++ t) ->
+    idf x = Z.of_nat (length l) + 1 ->
+    find (fun y => eqb (key y) (key x)) l = None /\ exists t', t = x :: t'.
+  Proof.
+    intros l t x Hids Hnd Hin Hr. split.
+    - destruct (find (fun y => eqb (key y) (key x)) l) as [g0|] eqn:E; [|reflexivity]. exfalso.
+      apply find_some in E. destruct E as [Hg Hk]. apply eqb_spec in Hk.
+      assert (g0 = x) by (apply (nodup_key_inj key (l ++ t)); auto; apply in_or_app; left; assumption).
+      subst g0. assert (Hl : ids_seq idf l).
+      { intros i y Hi. apply (Hids i y). rewrite nth_error_app1; [exact Hi|]. apply nth_error_Some. congruence. }
+      pose proof (ids_from_in idf l 1 x Hl Hg). lia.
+    - pose proof (ids_nth (l ++ t) x Hids Hin) as N.
+      rewrite nth_error_app2 in N by lia.
+      replace (Z.to_nat (idf x - 1) - length l)%nat with 0%nat in N by lia.
+      destruct t as [|y t']; [discriminate|]. cbn in N. inversion N; subst. eauto.
+  Qed.
+End Replay.
